@@ -825,7 +825,6 @@ class ExprOps:
         # symbolic map: fresh sequence with a pointwise definition
         n = it['count']
         j = st.decls.const('cj', 'Int')
-        q = st.decls.const('qc', 'Int')
         saved = dict(st.env)
         mark = len(st.pc)
         nob = len(st.obligations)
@@ -851,6 +850,11 @@ class ExprOps:
             ob.goal = "(forall ((%s Int)) (=> %s %s))" % (j, mk_and(rng, *side), ob.goal)
             ob.assumptions = ob.assumptions[:mark]
         del st.decls.consts[j]
+        # hash-consing: the sequence is determined by the (canonical) text of its defining body
+        import hashlib
+        canon = (n + '|' + bval + '|' + '&'.join(side)).replace(j, '$J')
+        q = 'qc_' + hashlib.sha1(canon.encode()).hexdigest()[:12]
+        st.decls.consts[q] = 'Int'
         st.assume(mk_eq("(len %s)" % q, n), 'def')
         body = mk_implies(rng, mk_and(*(side + [mk_eq("(at %s %s)" % (q, j), bval)])))
         st.assume("(forall ((%s Int)) (! %s :pattern ((at %s %s))))" % (j, body, q, j), 'def')
